@@ -357,6 +357,9 @@ class Z3Seam:
     {"kind": "z3_unknown", "at_call": i}             one call answers unknown
     {"kind": "z3_outage",  "at_call": i, "len": n}   n consecutive calls answer unknown
     {"kind": "z3_starved", "at_call": i, "len": n}   budget / 100 for n calls
+    {"kind": "z3_slow",    "at_call": i, "delta": s} the process is stalled for s (virtual)
+                                                     seconds while this call runs; the answer
+                                                     is the real one
     """
 
     def __init__(
@@ -396,8 +399,9 @@ class Z3Seam:
             start = f.get("at_call")
             if start is None:
                 continue
-            ln = int(f.get("len", 1)) if f["kind"] != "z3_unknown" else 1
+            ln = int(f.get("len", 1)) if f["kind"] not in ("z3_unknown", "z3_slow") else 1
             if start <= idx < start + ln:
+                self._hit = f
                 return f["kind"]
         return None
 
@@ -444,6 +448,10 @@ class Z3Seam:
             before = _rlimit_count(solver)
             result = _ORIG_CHECK(solver, *assumptions)
             cost = max(0, _rlimit_count(solver) - before)
+            if fault == "z3_slow":
+                seam.fired[fault] = seam.fired.get(fault, 0) + 1
+                if seam.clock is not None:
+                    seam.clock.offset_mono += float(seam._hit.get("delta", 100.0))
             if seam.clock is not None:
                 seam.clock.z3_rlimit += cost
                 # Z3 work counts towards the deterministic work cap as well
